@@ -253,6 +253,7 @@ class NxMixedGraph:
             prefix=prefix,
             start=start,
             tag=tag,
+            nodes=self.nodes(),
         )
 
     @classmethod
@@ -269,6 +270,7 @@ class NxMixedGraph:
                 for a, b in itt.combinations(graph.successors(node), 2):
                     rv.add_undirected_edge(a, b)
             else:
+                rv.add_node(node)
                 for child in graph.successors(node):
                     rv.add_directed_edge(node, child)
         return rv
@@ -748,11 +750,13 @@ def _latent_dag(
     prefix: str | None = None,
     start: int = 0,
     tag: str | None = None,
+    nodes: Iterable[Variable] | None = None,
 ) -> nx.DiGraph:
     """Create a labeled DAG where bi-directed edges are assigned as nodes upstream of their two incident nodes.
 
     :param di_edges: A list of directional edges
     :param bi_edges: A list of bidirectional edges
+    :param nodes: Nodes to add even if they do not take part in any edge
     :param prefix: The prefix for latent variables. If none, defaults to :data:`y0.graph.DEFAULT_PREFIX`.
     :param start: The starting number for latent variables (defaults to 0, could be changed to 1 if desired)
     :param tag: The key for node data describing whether it is latent.
@@ -767,6 +771,8 @@ def _latent_dag(
     bi_edges_list = list(bi_edges)
 
     rv = nx.DiGraph()
+    if nodes is not None:
+        rv.add_nodes_from(nodes)
     rv.add_nodes_from(itt.chain.from_iterable(bi_edges_list))
     rv.add_edges_from(di_edges)
     nx.set_node_attributes(rv, False, tag)
